@@ -29,7 +29,7 @@ from ..selftest import Mutant
 
 PROP = "C20"
 MOD = "pipefunc.resources"
-TECHNIQUE = "static analysis: alias/purity abstract interpretation + typed ordering rule + merge-direction and field-coverage analysis over the AST and call graph of pipefunc/resources.py + running-extremum discipline + regex-AST field-width rule + lossy-component rule (timedelta.seconds) + no-removal rule in with_defaults + extra-args-cannot-displace rule + per-field independent emission (guard facts) + nested maximum returned unmodified + numeric key= functions and converters known by type + day-factor rule + independent validation per quantity + winner-is-an-operand rule + hand-written field lists vs dataclass fields + verbose regexes"
+TECHNIQUE = "static analysis: alias/purity abstract interpretation + typed ordering rule + merge-direction and field-coverage analysis over the AST and call graph of pipefunc/resources.py + running-extremum discipline + regex-AST field-width rule + lossy-component rule (timedelta.seconds) + no-removal rule in with_defaults + extra-args-cannot-displace rule + per-field independent emission (guard facts) + nested maximum returned unmodified + numeric key= functions and converters known by type + day-factor rule + independent validation per quantity + winner-is-an-operand rule + hand-written field lists vs dataclass fields + verbose regexes + decision-chain relation tests (nested decisions, field names as strings)"
 EXPLANATION = (
     "Static analysis of pipefunc/resources.py (functions analysed together with the private helpers and module constants "
     "they use; local definitions are followed, names of locals are irrelevant): an alias/purity abstract interpretation, "
